@@ -116,7 +116,8 @@ num = _NS["_xv_num"]
 value = _NS["_xv_value"]
 
 
-def make_fn(args, kind="num", name="xvfn", version=0, defaults=None):
+def make_fn(args, kind="num", name="xvfn", version=0, defaults=None,
+            delay=None):
     """Build ``def name(a, b, k=<default>)`` returning the encoding of its
     keyword arguments as result ``kind``."""
     defaults = defaults or {}
@@ -126,8 +127,13 @@ def make_fn(args, kind="num", name="xvfn", version=0, defaults=None):
             parts.append("%s=%r" % (a, defaults[a]))
         else:
             parts.append(a)
-    src = "def {name}({sig}):\n    return _xv_call({name!r}, {kind!r}, {version!r}, dict({kws}))\n".format(
-        name=name, sig=", ".join(parts), kind=kind, version=version,
+    pre = ""
+    if delay:
+        # (argument, value, seconds): that setting is slow, so that a real
+        # pool completes tasks out of submission order
+        pre = "    if %s == %r:\n        import time\n        time.sleep(%r)\n" % delay
+    src = "def {name}({sig}):\n{pre}    return _xv_call({name!r}, {kind!r}, {version!r}, dict({kws}))\n".format(
+        name=name, sig=", ".join(parts), kind=kind, version=version, pre=pre,
         kws=", ".join("%s=%s" % (a, a) for a in args),
     )
     ns = dict(_NS)
